@@ -38,4 +38,7 @@ InvQLive == Admissible(n, c) => n - c >= Q(n)
 \* X1 (EXPECTED TO FAIL -- documents the finding on LedgerStoreImp.verifyHeader): a threshold of HdrSigs(N) signatures
 \* does not intersect a commit quorum in an honest peer
 InvHdrWouldIntersect == (Admissible(n, c) /\ c >= 1 /\ t1 >= HdrSigs(n) /\ t2 >= Q(n)) => Intersect(t1, t2, n, c)
+\* X2 (EXPECTED TO FAIL): the header check as it is since f6fb1e52, max(HdrSigs(N), C+1) signatures, is a witness check
+\* (at least one honest signer), not a quorum: it does not intersect a commit quorum in an honest peer
+InvHdrWitnessWouldIntersect == (Admissible(n, c) /\ c >= 1 /\ t1 >= HdrSigs(n) /\ t1 >= c + 1 /\ t2 >= Q(n)) => Intersect(t1, t2, n, c)
 =============================================================================
